@@ -44,12 +44,12 @@ type Violation struct {
 
 // Partial is the mergeable part of a report, written by child processes.
 type Partial struct {
-	Evaluations  int64             `json:"evaluations"`
-	Distinct     []string          `json:"distinct"`
-	Counters     map[string]int64  `json:"counters"`
-	Samples      []interface{}     `json:"samples"`
-	Violations   []Violation       `json:"violations"`
-	Inconclusive []string          `json:"inconclusive"`
+	Evaluations  int64               `json:"evaluations"`
+	Distinct     []string            `json:"distinct"`
+	Counters     map[string]int64    `json:"counters"`
+	Samples      []interface{}       `json:"samples"`
+	Violations   []Violation         `json:"violations"`
+	Inconclusive []string            `json:"inconclusive"`
 	Sets         map[string][]string `json:"sets"`
 }
 
